@@ -3,6 +3,7 @@ package main
 import (
 	"fmt"
 	"go/types"
+	"sort"
 	"strings"
 
 	"golang.org/x/tools/go/ssa"
@@ -12,7 +13,7 @@ func init() {
 	register(&propertyDef{
 		id:    "C09",
 		title: "the result does not depend on how fast goroutines are scheduled",
-		rules: []ruleFunc{c09R1, c09R2, c09R3, c09R4, c09R5},
+		rules: []ruleFunc{c09R1, c09R2, c09R3, c09R4, c09R5, c09R6},
 		decided: "the fallback detector is time-based (retries x delay), so schedule independence needs that it can never observe `waiting for input` for a step whose input was delivered. Decided as structural conditions on the writes of the step state: " +
 			"every hand-over of stage input flips state Waiting->Running in the same critical section (R1); every entry into `waiting_for_input` is made in the critical section that tests the matching input-available flag and depends on it (R2); " +
 			"the detector and the input hand-over read/write under the run lock (R3); the detector reports only when no step is starting, none is running, no node is ready and no output was produced, and only after its retries are used up (R4).",
@@ -491,4 +492,74 @@ func c09R5(c *Ctx) {
 		}
 	}
 	c.Obligations = kept
+}
+
+// C09.R6 one notification, one critical section.
+func c09R6(c *Ctx) {
+	const rule = "C09.R6"
+	c.explain("C09.R6 each StageChangeHandler method of the run loop acquires the run lock at most once on any path (directly or through the functions it calls synchronously; `go` statements are other threads): what a notification does to the DAG, the data model and the step bookkeeping is one critical section that ends with the deadlock check. A handler that releases the lock and takes it again lets the time-based fallback detector (3 rechecks, 10 ms apart) run in between on a half-processed notification — a goroutine delayed there makes a correct run end with `no steps running, no more executable steps`")
+	L := c.runLock()
+	if L == nil {
+		return
+	}
+	// functions that acquire the run lock synchronously (fix-point over static calls; go statements excluded)
+	acquires := map[*ssa.Function]bool{}
+	isAcq := func(in ssa.Instruction) bool {
+		if _, isGo := in.(*ssa.Go); isGo {
+			return false
+		}
+		if f, isLock, ok := lockOp(in); ok && isLock && f == L {
+			if _, isDefer := in.(*ssa.Defer); !isDefer {
+				return true
+			}
+		}
+		if call, ok := in.(*ssa.Call); ok {
+			for _, callee := range c.CG().Callees(call) {
+				if acquires[callee] {
+					return true
+				}
+			}
+		}
+		return false
+	}
+	for changed := true; changed; {
+		changed = false
+		for _, fn := range c.inPkgs(c.runFns(), pkgWorkflow) {
+			if acquires[fn] {
+				continue
+			}
+			eachInstr(fn, func(r instrRef) {
+				if !acquires[fn] && isAcq(r.I) {
+					acquires[fn] = true
+					changed = true
+				}
+			})
+		}
+	}
+	n := 0
+	for _, impl := range c.ifaceMethodImpls(pkgStep, "StageChangeHandler") {
+		if pkgPathOf(impl) != pkgWorkflow {
+			continue
+		}
+		n++
+		var bad []string
+		for _, g := range c.logicalBody(impl) {
+			var sites []ssa.Instruction
+			eachInstr(g, func(r instrRef) {
+				if isAcq(r.I) {
+					sites = append(sites, r.I)
+				}
+			})
+			for i, a := range sites {
+				for j, b := range sites {
+					if i != j && a != b && c.reachableFrom(a, b) {
+						bad = append(bad, fmt.Sprintf("%s: the run lock is taken at %s and, later on the same path, again at %s", c.fnName(g), c.instrPos(a), c.instrPos(b)))
+					}
+				}
+			}
+		}
+		sort.Strings(bad)
+		c.verdict(len(bad) == 0, rule, "one-critical-section:"+c.fnName(impl), c.pos(impl.Pos()), "the notification is processed in a single critical section of the run lock", strings.Join(bad, "; "))
+	}
+	c.minCount(rule, "stage change handler methods of the run loop", n, 3)
 }
